@@ -122,5 +122,7 @@ package bsupport
 //@   flag nosafety noinfer
 //@   requires worker != nil
 //@   modifies everything
+//@   ensures[every-output-is-flushed] ncalls("base.LogChunkMaker.FlushBuffer") == old(ncalls("base.LogChunkMaker.FlushBuffer")) + len(old(worker.outputList))
+//@   loop 1: invariant -1 <= rangeindex && ncalls("base.LogChunkMaker.FlushBuffer") == old(ncalls("base.LogChunkMaker.FlushBuffer")) + rangeindex + 1
 //@   loop 1: step[one-flush-per-output-every-chunk-counted] ncalls("base.LogChunkMaker.FlushBuffer") == prev(ncalls("base.LogChunkMaker.FlushBuffer")) + 1
 //@           && ncalls("base.LogProcessCounterSet.CountChunk") - prev(ncalls("base.LogProcessCounterSet.CountChunk")) == nchunks - prev(nchunks)
